@@ -9,6 +9,7 @@ import traceback
 from dataclasses import dataclass, field
 from typing import Any, Callable, Dict, List, Optional, Sequence
 
+from .astx import ValueIdentity
 from .model import AnchorMissing, Repo
 
 VERIF_DIR = os.path.dirname(os.path.dirname(os.path.abspath(__file__)))
@@ -138,16 +139,31 @@ class Ctx:
 
 def run_rule(rd: RuleDef, repo: Repo, tier: str = "quick", check_min: bool = True) -> Ctx:
     ctx = Ctx(repo, rd.id, tier)
+    aborted = False
     try:
         rd.fn(ctx)
     except AnchorMissing as exc:
         ctx.unknown(rd.id, f"anchor vanished: {exc.what}")
     except Unknown as exc:
         ctx.unknown(exc.construct, exc.reason, exc.node)
+    except ValueIdentity as exc:
+        text = ast.unparse(exc.node) if exc.node is not None else "?"
+        aborted = True          # the rule stopped at the violation: the instance count says nothing
+        module = None
+        for name, mod in repo.modules.items():
+            tree = getattr(mod, "tree", mod)
+            if any(isinstance(n, ast.Compare) and getattr(n, "lineno", None) == getattr(exc.node, "lineno", -1)
+                   and [type(o) for o in n.ops] == [type(o) for o in getattr(exc.node, "ops", [])]
+                   and ast.unparse(n.left) == ast.unparse(exc.node.left) for n in ast.walk(tree)):
+                module = name
+                break
+        ctx.violation(f"{module or rd.id}#identity-comparison `{text[:80]}`",
+                      f"{exc}: the outcome depends on which integer objects the implementation shares, not on the values",
+                      exc.node, module=module)
     except Exception as exc:  # checker bug: never a violation
         tb = traceback.format_exc(limit=6)
         ctx.unknown(rd.id, f"checker exception {type(exc).__name__}: {exc} | {tb.splitlines()[-3:]}")
-    if check_min:
+    if check_min and not aborted:
         n = sum(1 for i in ctx.instances if i.status in (OK, VIOLATION))
         if n < rd.min_instances and not any(i.status == UNKNOWN for i in ctx.instances):
             ctx.unknown(rd.id, f"only {n} instance(s) matched, {rd.min_instances} confirmed by hand on the "
